@@ -183,6 +183,8 @@ impl GenerationCache {
         struct CommandHashData<'a> {
             name: &'a str,
             file_path: &'a str,
+            // printed by the dependency visualisation (`file:line` of every command)
+            line_number: usize,
             parameters: Vec<ParameterHashData<'a>>,
             return_type: &'a str,
             is_async: bool,
@@ -209,6 +211,7 @@ impl GenerationCache {
             .map(|cmd| CommandHashData {
                 name: &cmd.name,
                 file_path: &cmd.file_path,
+                line_number: cmd.line_number,
                 parameters: cmd
                     .parameters
                     .iter()
